@@ -23,6 +23,7 @@ import (
 	lcclient "github.com/hyperledger/aries-framework-go/pkg/client/legacyconnection"
 	medclient "github.com/hyperledger/aries-framework-go/pkg/client/mediator"
 	oobclient "github.com/hyperledger/aries-framework-go/pkg/client/outofband"
+	oob2client "github.com/hyperledger/aries-framework-go/pkg/client/outofbandv2"
 	arieslog "github.com/hyperledger/aries-framework-go/pkg/common/log"
 	"github.com/hyperledger/aries-framework-go/pkg/common/model"
 	"github.com/hyperledger/aries-framework-go/pkg/didcomm/common/service"
@@ -93,6 +94,8 @@ type exchRun struct {
 	done        bool
 	forged      bool
 	forgedDID   string
+	v2          bool
+	acceptV2    func() (string, error)
 	x, y        *Rec // inviter / invitee record once completed
 	resX, resY  string
 }
@@ -612,6 +615,21 @@ func (r *runner) setup(e *exchRun) error {
 		r.post(x, pre, func(int, string) string {
 			return fmt.Sprintf("ICreateInv %d %d", r.w.inv(id), r.w.key(e.invKey))
 		}, false, "")
+	case "oobv2": // out-of-band v2: no handshake, a DIDComm v2 connection by DID (the inviter is a public DID)
+		id := "did:c10pub:" + e.Inviter + base58ish(r.rng, 8)
+
+		if _, err := x.PublishDIDv2(id); err != nil {
+			return err
+		}
+
+		inv, err := x.oob2.CreateInvitation(oob2client.WithFrom(id), oob2client.WithLabel(e.Inviter))
+		if err != nil {
+			return err
+		}
+
+		e.invID, e.proto, e.v2 = inv.ID, "V2", true
+		e.acceptV2 = func() (string, error) { return y.oob2.AcceptInvitation(inv) }
+		r.w.noCoq("DIDComm v2 connection: attribution by DID, outside the model")
 	case "legacy-pubdid", "legacy-implicit": // legacy connection by public DID: the invitation key is the did:key of the DID document
 		id := "did:c10pub:" + e.Inviter + base58ish(r.rng, 8)
 
@@ -674,6 +692,28 @@ func (r *runner) setup(e *exchRun) error {
 
 func (r *runner) acceptStep(e *exchRun) {
 	y := r.w.agent(e.Invitee)
+
+	if e.v2 {
+		c, err := e.acceptV2()
+		if err != nil {
+			r.res.obs["accept-error:"+e.Invitee] = err.Error()
+
+			return
+		}
+
+		e.inviteeConn = c
+
+		// the inviter learns of the connection with the first message
+		if yr := y.Record(c); yr != nil {
+			msg := service.DIDCommMsgMap{"id": uuid.New().String(), "type": pingV2Type, "body": map[string]interface{}{}}
+			if err := y.ctx.Messenger().Send(msg, yr.MyDID, yr.TheirDID); err != nil {
+				r.res.obs["first-message-error:"+e.Invitee] = err.Error()
+			}
+		}
+
+		return
+	}
+
 	pre := r.pre(y)
 
 	c, err := e.accept()
@@ -716,6 +756,12 @@ func (r *runner) acceptStep(e *exchRun) {
 // evaluate pairs the records of an exchange and applies the `mutual` oracle.
 func (r *runner) evaluate(e *exchRun, when string) {
 	x, y := r.w.agent(e.Inviter), r.w.agent(e.Invitee)
+
+	if e.v2 {
+		r.evaluateV2(e, when)
+
+		return
+	}
 
 	yr := y.Record(e.inviteeConn)
 	if yr == nil || yr.State != "completed" {
@@ -800,14 +846,71 @@ func (r *runner) evaluate(e *exchRun, when string) {
 	}
 }
 
+// evaluateV2 pairs the records of a DIDComm v2 connection (found by the two DIDs) and applies the same oracles.
+func (r *runner) evaluateV2(e *exchRun, when string) {
+	x, y := r.w.agent(e.Inviter), r.w.agent(e.Invitee)
+
+	yr := y.Record(e.inviteeConn)
+	if yr == nil || yr.State != "completed" {
+		return
+	}
+
+	var xr *Rec
+
+	if e.x != nil {
+		xr = x.Record(e.x.ConnID)
+	} else if rec, err := x.lookup.GetConnectionRecordByDIDs(yr.TheirDID, yr.MyDID); err == nil {
+		xr = &Rec{ConnID: rec.ConnectionID, State: rec.State, MyDID: rec.MyDID, TheirDID: rec.TheirDID, ThreadID: rec.ThreadID, NS: rec.Namespace}
+	}
+
+	if xr == nil {
+		return
+	}
+
+	rx, ry := x.Resolve(xr.TheirDID), y.Resolve(yr.TheirDID)
+	ox, oy := x.Resolve(xr.MyDID), y.Resolve(yr.MyDID)
+
+	if e.x == nil {
+		if xr.MyDID != yr.TheirDID || xr.TheirDID != yr.MyDID || xr.State != "completed" {
+			r.res.failf("mutual-mismatch", "%s: v2 connection: %s has (my %s, their %s, %s), %s has (my %s, their %s)", when, x.Name, xr.MyDID,
+				xr.TheirDID, xr.State, y.Name, yr.MyDID, yr.TheirDID)
+		}
+
+		if !sameDest(rx, oy) || !sameDest(ry, ox) {
+			r.res.failf("mutual-resolution", "%s: v2 connection: %s resolves the peer to %s (peer's own: %s); %s resolves the peer to %s (peer's own: %s)",
+				when, x.Name, rx, oy, y.Name, ry, ox)
+		}
+
+		e.x, e.y, e.resX, e.resY, e.done = xr, yr, rx.String(), ry.String(), true
+
+		return
+	}
+
+	if *xr != *e.x || *yr != *e.y {
+		r.res.failf("record-changed:"+when, "%s: completed v2 records changed: %+v -> %+v / %+v -> %+v", when, *e.x, *xr, *e.y, *yr)
+	}
+
+	if rx.String() != e.resX {
+		r.res.failf("repoint:"+when, "%s: %s resolved the peer %s to %s, now to %s", when, x.Name, xr.TheirDID, e.resX, rx)
+	}
+
+	if ry.String() != e.resY {
+		r.res.failf("repoint:"+when, "%s: %s resolved the peer %s to %s, now to %s", when, y.Name, yr.TheirDID, e.resY, ry)
+	}
+}
+
 func sameDest(a, b Res) bool {
 	return a.OK && b.OK && a.Endpoint == b.Endpoint && strings.Join(a.RecKeys, ",") == strings.Join(b.RecKeys, ",")
 }
 
 // ping sends an application message over the completed connection from one side and checks where it lands.
-func (r *runner) ping(from, to *Agent, fr, tr *Rec, when string) {
+func (r *runner) ping(from, to *Agent, fr, tr *Rec, when string, v2 bool) {
 	id := uuid.New().String()
 	msg := service.DIDCommMsgMap{"@id": id, "@type": basicType}
+
+	if v2 {
+		msg = service.DIDCommMsgMap{"id": id, "type": pingV2Type, "body": map[string]interface{}{}}
+	}
 
 	if err := from.ctx.Messenger().Send(msg, fr.MyDID, fr.TheirDID); err != nil {
 		r.res.failf("ping-send:"+when, "%s: %s cannot send over its completed connection: %v", when, from.Name, err)
@@ -841,7 +944,7 @@ func (r *runner) ping(from, to *Agent, fr, tr *Rec, when string) {
 		// where did it go?
 		dest := ""
 		for _, p := range r.w.net.Log {
-			if p.Plain != nil && plainStr(p, "@id") == id {
+			if p.Plain != nil && (plainStr(p, "@id") == id || plainStr(p, "id") == id) {
 				dest = p.To
 			}
 		}
@@ -869,8 +972,8 @@ func (r *runner) checkAll(when string) {
 		}
 
 		x, y := r.w.agent(e.Inviter), r.w.agent(e.Invitee)
-		r.ping(y, x, e.y, e.x, when)
-		r.ping(x, y, e.x, e.y, when)
+		r.ping(y, x, e.y, e.x, when, e.v2)
+		r.ping(x, y, e.x, e.y, when, e.v2)
 	}
 }
 
@@ -1016,7 +1119,7 @@ func runCase(spec *Spec, kind string, idx int) *hx.Record {
 			x, y := w.agent(e.Inviter), w.agent(e.Invitee)
 			yr := y.Record(e.inviteeConn)
 
-			if yr == nil {
+			if yr == nil || e.v2 {
 				continue
 			}
 
@@ -2065,6 +2168,29 @@ func main() {
 		}
 	}
 
+	// out-of-band v2 / DIDComm v2 connections (profile didcomm/v2): honest, then re-pointing and rotation attacks
+	for k := 1; k <= 3; k++ {
+		s := &Spec{Cfg: cfgs[4], Seed: rng.U64()}
+		for j := 0; j < k; j++ {
+			e := Exch{Inviter: "alice", Invitee: "bob", Style: "oobv2"}
+			if j == 1 {
+				e = Exch{Inviter: "bob", Invitee: "alice", Style: "oobv2"}
+			}
+
+			s.Exch = append(s.Exch, e)
+		}
+
+		add("v2", s)
+	}
+
+	for _, ak := range []string{"req-repoint", "req-repoint-keys", "req-repoint-endpoint", "req-docid-mismatch", "init-repoint", "rotate-takeover",
+		"rotate-takeover-relkid", "req-keysteal", "ping-from-spoof"} {
+		for _, target := range []string{"alice", "bob"} {
+			add("v2", &Spec{Cfg: cfgs[4], Seed: rng.U64(), Exch: []Exch{{Inviter: "alice", Invitee: "bob", Style: "oobv2"}, withM(target)},
+				Attacks: []Attack{{Kind: ak, Target: target}}, Restart: []string{"", "target"}[rng.Intn(2)]})
+		}
+	}
+
 	// synchronous delivery: every reply reaches the sender while it is still inside its Send call
 	for _, cfg := range cfgs {
 		for _, st := range styles {
@@ -2089,7 +2215,7 @@ func main() {
 	}
 
 	// seeded mixtures: several concurrent exchanges (both directions, mallory's own among them), several attacks
-	nRandom := 220
+	nRandom := 140
 	if args.Tier == "thorough" {
 		nRandom = 3000
 	}
